@@ -16,7 +16,7 @@ sys.path.insert(0, os.path.dirname(os.path.dirname(os.path.abspath(__file__))))
 sys.path.insert(0, os.path.join(os.path.dirname(os.path.dirname(os.path.abspath(__file__))), "probes"))
 import mutant_survey_probe as probe  # noqa: E402  (generator only)
 
-REPO = "/repo"
+REPO = "/dev/shm/svx_sweep_base"  # snapshot of /repo taken at start (so edits to /repo during the sweep do not matter)
 FILES = ["_extract.py", "_glue.py", "_customization.py", "_code_dispatch.py", "_types.py", "_lowlevel.py",
          "_lowlevel_cpython_311.py", "_lowlevel_cpython_310.py"]
 ROOT = "/dev/shm/svx_sweep"
@@ -76,6 +76,9 @@ def main():
     only = [a for a in sys.argv[2:] if a.endswith(".py")]
     shutil.rmtree(ROOT, ignore_errors=True)
     os.makedirs(ROOT)
+    shutil.rmtree(REPO, ignore_errors=True)
+    os.makedirs(REPO)
+    subprocess.run("git -C /repo archive HEAD | tar -x -C " + REPO, shell=True, check=True)
     jobs = []
     for fname in FILES:
         if only and fname not in only:
@@ -108,6 +111,7 @@ def main():
             if k % 200 == 0:
                 print(k, round(time.time() - t0), flush=True)
     shutil.rmtree(ROOT, ignore_errors=True)
+    shutil.rmtree(REPO, ignore_errors=True)
     out = os.path.join(os.path.dirname(os.path.dirname(os.path.abspath(__file__))), "probes", f"sweep_{tag}.json")
     json.dump(dict(total=len(res), results=res), open(out, "w"), indent=0)
     surv = [r for r in res if r["suite_rc"] == 0]
